@@ -518,6 +518,9 @@ pub struct Profile {
     pub max_maint: u64,
     pub span_steps: u64,    // width of the time window in grid steps
     pub max_demand_factor: u64, // vehicles needed per trip, upper end
+    /// bias towards several rotation cycles per type: slots with several tracks, a generous
+    /// maintenance distance (so that every maintained vehicle opens its own cycle), few types
+    pub maint_heavy: bool,
 }
 
 impl Profile {
@@ -532,6 +535,7 @@ impl Profile {
             max_maint: 2,
             span_steps: 24,
             max_demand_factor: 2,
+            maint_heavy: false,
         }
     }
     pub fn medium() -> Profile {
@@ -545,6 +549,21 @@ impl Profile {
             max_maint: 3,
             span_steps: 60,
             max_demand_factor: 4,
+            maint_heavy: false,
+        }
+    }
+    pub fn maint_heavy() -> Profile {
+        Profile {
+            max_types: 2,
+            max_locs: 3,
+            min_departures: 3,
+            max_departures: 8,
+            max_route_segs: 2,
+            maint_percent: 100,
+            max_maint: 3,
+            span_steps: 40,
+            max_demand_factor: 2,
+            maint_heavy: true,
         }
     }
 }
@@ -640,7 +659,7 @@ pub fn gen_instance(rng: &mut Rng, p: &Profile) -> Inst {
                 loc: rng.below(nlocs as u64) as usize,
                 start,
                 end: start + GRID * rng.range(1, 8),
-                tracks: *rng.pick(&[1u64, 1, 2, 2, 3]),
+                tracks: if p.maint_heavy { *rng.pick(&[2u64, 2, 3]) } else { *rng.pick(&[1u64, 1, 2, 2, 3]) },
             });
         }
     }
@@ -710,6 +729,8 @@ pub fn gen_instance(rng: &mut Rng, p: &Profile) -> Inst {
     let (shunt_min, shunt_dh) = *rng.pick(&[(0u64, 0u64), (0, 0), (0, 300), (0, 600), (300, 300), (600, 600), (600, 0)]);
     let max_dist = if maint.is_empty() && rng.chance(50) {
         0
+    } else if p.maint_heavy {
+        *rng.pick(&[50_000u64, 1_000_000])
     } else {
         *rng.pick(&[500u64, 1500, 3000, 5000, 50_000, 1_000_000])
     };
